@@ -68,8 +68,11 @@ def reclaim_history(task):
     def stat(k, n=1):
         out['stats'][k] = out['stats'].get(k, 0) + n
     sr = SeqRunner(task['binary'], timeout=300.0, stop_on=('stream', 'open', 'dead'))
-    same_dir = rng.random() < 0.5
-    for h, key in ((1, 'A'), (2, 'B')):
+    # three ways of being "different instances": same key under two data dirs / two keys in one data dir / two keys in two data dirs
+    variant = task['idx'] % 3
+    same_dir = variant == 1
+    same_key = variant == 0
+    for h, key in ((1, 'A'), (2, 'A' if same_key else 'B')):
         p = {'mode': 'strict', 'sched': 'ms:1', 'backend': task['backend'], 'via': 'builder', 'key': key, 'dir': base if same_dir else os.path.join(base, 'd%d' % h)}
         os.makedirs(p['dir'], exist_ok=True)
         sr.inst[h] = Instance(p)
@@ -90,10 +93,11 @@ def reclaim_history(task):
             out['inconclusive'] = 'layout does not match the model'
             return out
         owner = {f: h for h in (1, 2) for f in fmap[h]}
-        consumer = rng.choice([1, 2])
+        # the instance that consumes: the one opened second in even histories (its block ids were registered after the other's), the first in odd ones
+        consumer = 2 if (task['idx'] // 3) % 2 == 0 else 1
         other = 3 - consumer
         plan_other = rng.choice([0, 0, 5, 30])
-        out['sample'] = {'consumer_instance': consumer, 'other_instance_consumes': plan_other, 'same_data_dir': same_dir, 'backend': task['backend']}
+        out['sample'] = {'same_key_different_dirs': same_key, 'consumer_instance': consumer, 'other_instance_consumes': plan_other, 'same_data_dir': same_dir, 'backend': task['backend']}
         for t in ('x', 'y'):
             while sr.do_read_next(consumer, t, True):
                 pass
@@ -181,11 +185,11 @@ def run(tier, seed, budget):
     q = tier == 'quick'
     rep = Report('C13', tier, seed, 'exploration')
     rep.rule = RULE
-    rep.required = {'programs:a': 20, 'histories:b': 2, 'entries_consumed': 500, 'reopens': 5, 'reclaim_passes_awaited': 4, 'restart_checks': 1}
+    rep.required = {'programs:a': 20, 'histories:b': 3, 'entries_consumed': 500, 'reopens': 5, 'reclaim_passes_awaited': 4, 'restart_checks': 1}
     rep.assumptions = ['part (b) uses the release build of the worker (1.2 GiB of payload per history)', 'process-global fsync schedule: the first instance opened decides it']
     dbg = common.build('wsrv', 'debug')
     rel = common.build('wsrv', 'release')
-    tasks = [{'part': 'b', 'binary': rel, 'seed': seed, 'idx': i, 'backend': ['fd', 'mmap'][i % 2]} for i in range(2 if q else 60)]
+    tasks = [{'part': 'b', 'binary': rel, 'seed': seed, 'idx': i, 'backend': ['fd', 'mmap'][i % 2]} for i in range(3 if q else 60)]
     tasks += [{'part': 'a', 'binary': dbg, 'seed': seed, 'idx': i, 'backend': ['fd', 'mmap'][i % 2]} for i in range(40 if q else 3000)]
     for t, res in pmap(task_fn, tasks, jobs=12, budget_s=budget):
         if isinstance(res, Exception):
@@ -206,6 +210,7 @@ def run(tier, seed, budget):
         else:
             rep.add_case(fingerprint(['b', t['idx']]), True, res['sample'])
             rep.count('histories:b')
+            rep.count('histories:b:' + ('same-key-two-dirs' if res['sample'].get('same_key_different_dirs') else 'two-keys'))
             rep.merge_cover({k: v for k, v in st.items() if not k.startswith('seq:')})
             rep.count('entries_consumed', st.get('seq:entries_consumed', 0))
             for f in res['findings']:
